@@ -152,6 +152,9 @@ func (th *Thread) callSSA(caller *frame, callpos token.Pos, fn *ssa.Function, ar
 	if fn.TypeParams().Len() > 0 && len(fn.TypeArgs()) == 0 {
 		panic(inconclusive{"generic function body reached: " + fn.String()})
 	}
+	prevFn := th.curFn
+	th.curFn = fn
+	defer func() { th.curFn = prevFn }()
 	th.depth++
 	if th.depth > 400 {
 		panic(inconclusive{"call depth limit exceeded in " + fn.String()})
@@ -677,6 +680,7 @@ func (th *Thread) slice(instr *ssa.Slice, x Value, lo, hi, max Value) Value {
 
 func (th *Thread) mapFind(m *Map, k Value) int {
 	e := th.eng
+	e.access(th, &m.cell, false)
 	for i, ent := range m.ents {
 		eq := e.equals(m.kt, ent.k, k)
 		if e.path.Branch(eq) {
@@ -687,6 +691,7 @@ func (th *Thread) mapFind(m *Map, k Value) int {
 }
 
 func (th *Thread) mapInsert(m *Map, k, v Value) {
+	th.eng.access(th, &m.cell, true)
 	if i := th.mapFind(m, k); i >= 0 {
 		m.ents[i].v = v
 		return
@@ -698,6 +703,7 @@ func (th *Thread) mapDelete(m *Map, k Value) {
 	if m == nil {
 		return
 	}
+	th.eng.access(th, &m.cell, true)
 	if i := th.mapFind(m, k); i >= 0 {
 		m.ents = append(m.ents[:i:i], m.ents[i+1:]...)
 	}
@@ -734,6 +740,7 @@ func (th *Thread) rangeIter(x Value, t types.Type) Value {
 	case *Map:
 		it := &mapIter{m: x}
 		if x != nil {
+			th.eng.access(th, &x.cell, false)
 			it.ents = append(it.ents, x.ents...)
 			if th.eng.w.cfg.ReverseMaps {
 				for i, j := 0, len(it.ents)-1; i < j; i, j = i+1, j-1 {
@@ -850,8 +857,8 @@ func (e *Engine) visibleCaller(caller *frame) bool {
 	for fn.Parent() != nil {
 		fn = fn.Parent()
 	}
-	if fn.Pkg == nil || !e.w.pr.isRepo(fn.Pkg.Pkg.Path()) {
-		return false
+	if fn.Pkg == nil || fn.Pkg != e.w.pr.harnessPkg {
+		return false // only the package under test is instrumented for native replays
 	}
 	pos := caller.fn.Pos()
 	if pos == token.NoPos {
